@@ -10,6 +10,17 @@
 #include "dbus/dbus-message-private.h"
 #include "dbus/dbus-marshal-header.h"
 #include "dump.h"
+#include <dirent.h>
+
+static int
+count_open_fds (void)
+{
+  DIR *d = opendir ("/proc/self/fd"); struct dirent *e; int n = 0;
+  if (!d) return -1;
+  while ((e = readdir (d)) != NULL) if (e->d_name[0] != '.') n++;
+  closedir (d);
+  return n;
+}
 
 static unsigned char *unhex (const char *h, int *len)
 {
@@ -441,6 +452,50 @@ main (void)
               if (!fired) break;
             }
           printf ("failed=%d body-changed=%d\n", failed, changed);
+          fflush (stdout);
+          continue;
+        }
+      if (!strncmp (line, "wire oomleak", 12))
+        {
+          /* every basic type (a descriptor included) appended to a fresh signal with the k-th allocation failing, then the
+           * message is released and the library told to give up everything it caches (dbus_shutdown: a message taken from
+           * libdbus' cache would keep the buffers of its previous life, and a cached one holds blocks): whatever the append
+           * did, nothing may stay behind - no heap block, no open descriptor */
+          static const char types[] = "ybnqiuxtdsogh";
+          int ti, trials = 0, failed = 0, fd_leaks = 0, block_leaks = 0; int pfd[2];
+          char first[128]; first[0] = 0;
+          if (pipe (pfd) != 0) return 2;
+          dbus_shutdown ();
+          for (ti = 0; types[ti]; ti++)
+            {
+              int k;
+              for (k = 1; k < 60; k++)
+                {
+                  int fds0 = count_open_fds (), blocks0 = _dbus_get_malloc_blocks_outstanding (), fired;
+                  DBusMessage *m = dbus_message_new_signal ("/x", "a.b", "M");
+                  DBusMessageIter it; DBusBasicValue v; const char *s = types[ti] == 'o' ? "/a/b" : types[ti] == 'g' ? "ai" : "some text";
+                  dbus_bool_t ok; const void *p = &v;
+                  memset (&v, 0, sizeof v); v.u32 = 1;
+                  if (types[ti] == 'h') v.fd = pfd[0];
+                  if (types[ti] == 's' || types[ti] == 'o' || types[ti] == 'g') p = &s;
+                  dbus_message_iter_init_append (m, &it);
+                  _dbus_set_fail_alloc_counter (k - 1);
+                  ok = dbus_message_iter_append_basic (&it, types[ti], p);
+                  fired = _dbus_get_fail_alloc_counter () > _DBUS_INT_MAX / 2;
+                  _dbus_set_fail_alloc_counter (_DBUS_INT_MAX);
+                  dbus_message_unref (m);
+                  dbus_shutdown ();
+                  trials++;
+                  if (fired && !ok) failed++;
+                  if (count_open_fds () != fds0)
+                    { fd_leaks++; if (!first[0]) snprintf (first, sizeof first, "type=%c k=%d ok=%d fds:%d->%d", types[ti], k, (int) ok, fds0, count_open_fds ()); }
+                  if (_dbus_get_malloc_blocks_outstanding () != blocks0)
+                    { block_leaks++; if (!first[0]) snprintf (first, sizeof first, "type=%c k=%d ok=%d blocks:%d->%d", types[ti], k, (int) ok, blocks0, _dbus_get_malloc_blocks_outstanding ()); }
+                  if (!fired) break;
+                }
+            }
+          close (pfd[0]); close (pfd[1]);
+          printf ("trials=%d failed=%d fd-leaks=%d block-leaks=%d first=%s\n", trials, failed, fd_leaks, block_leaks, first[0] ? first : "-");
           fflush (stdout);
           continue;
         }
